@@ -29,6 +29,8 @@ def tweak(rng, row, w, case):
         v = f.get(fld)
         if isinstance(v, int) and v <= 14 and rng.random() < 0.7:
             st[gen.bank_key(v, mode)] = lane_value(rng)
+    if row.name.startswith(('SDIV', 'UDIV')):
+        st['sctlr'] = st.get('sctlr', 0) | (rng.getrandbits(1) << 19)      # SCTLR.DZ on the 7-R profile; the same bit is WXN elsewhere and must not trap
     if row.name.startswith(('SDIV', 'UDIV')) and isinstance(f.get('m'), int) and f['m'] <= 14 and rng.random() < 0.4:
         st[gen.bank_key(f['m'], mode)] = rng.choice((0, 0, 1, 0xFFFFFFFF, 2, 0x80000000))
     if row.name.startswith(('MUL', 'MLA', 'UMULL', 'UMLAL', 'SMULL', 'SMLAL')) and rng.random() < 0.3:
